@@ -1088,6 +1088,15 @@ func (x *xferWorld) progressOverflow(from int, cols int32) string {
 			single = true
 		}
 	}
+	var fileSizes []int64
+	for _, sp := range x.o.srcPaths {
+		if st, err := os.Stat(sp); err == nil && st.Mode().IsRegular() {
+			fileSizes = append(fileSizes, st.Size())
+		} else {
+			fileSizes = nil // a directory (or a source that is gone): the order of the files is not the order given
+			break
+		}
+	}
 	for _, e := range evs {
 		if e.Off < from || e.Off+e.N > len(term) {
 			continue
@@ -1145,10 +1154,28 @@ func (x *xferWorld) progressOverflow(from int, cols int32) string {
 		if pct > 100 {
 			return fmt.Sprintf("a percentage above 100 was shown: %q", vClip(vis, 140))
 		}
+		// the amount shown as transferred is never more than the file holds (judged where the line says which
+		// file it is about and the sources are plain files, sent in the order given)
+		if m := vProgressAmount.FindStringSubmatch(vis[loc[0]:]); m != nil && key != "" {
+			idx := 0
+			if key != "single" {
+				fmt.Sscanf(key, "(%d/", &idx)
+				idx--
+			}
+			if idx >= 0 && idx < len(fileSizes) && fileSizes[idx] >= 0 {
+				var v float64
+				fmt.Sscanf(m[1], "%g", &v)
+				shown := v * map[string]float64{"B": 1, "KB": 1 << 10, "MB": 1 << 20, "GB": 1 << 30, "TB": 1 << 40}[m[2]]
+				if shown > float64(fileSizes[idx])*1.02+1024 {
+					return fmt.Sprintf("%s is shown as transferred of a file of %d bytes (%s): %q", m[0], fileSizes[idx], key, vClip(vis, 140))
+				}
+			}
+		}
 	}
 	return ""
 }
 
+var vProgressAmount = regexp.MustCompile(`^\d+% \| (\d+(?:\.\d+)?) (B|KB|MB|GB|TB)( \||$)`)
 var vProgressIdx = regexp.MustCompile(`^(\(\d+/\d+\)) `)
 
 // dumpWire appends the tail of every link's recorded stream to the result detail (debugging aid).
